@@ -172,7 +172,7 @@ func (g *Gen) cmsDims() cmsCfg {
 	cols := g.Pick(1, 1, 2, 3, 5, 8, 16, 64, 257, 1000)
 	if g.Small {
 		cols = g.Pick(1, 2, 3, 5, 8)
-	} else if g.Wide && g.Chance(0.04) {
+	} else if g.Wide && g.Rare(0.04, 40, 7) {
 		// rarely: rows wider than 4096 cells (chunked Lua pushes, unpack limits; miniredis allows ~5100)
 		rows = 1
 		cols = 4090 + g.Intn(600)
@@ -284,7 +284,7 @@ func genC12(g *Gen, tier string) *Case {
 	if tier == "thorough" {
 		n = 6 + g.Intn(150)
 	}
-	if !g.Wide && g.Chance(0.04) && dims[0] == d && dims[1] == d {
+	if !g.Wide && g.Rare(0.04, 50, 13) && dims[0] == d && dims[1] == d {
 		// in-memory sketches only: merges that feed each other grow the cells like Fibonacci numbers,
 		// past 2^64 within some twenty rounds; cells wrap there, under Merge exactly as under Update
 		x := pool[g.Intn(len(pool))]
